@@ -19,6 +19,7 @@ mod endian;
 mod streams;
 mod regions;
 mod sched;
+mod copyw;
 
 use std::io::{BufRead, BufWriter, Write};
 
@@ -42,6 +43,7 @@ fn main() {
         "streams" => Box::new(streams::StreamExec::default()),
         "regions" => Box::new(regions::RegionsExec::default()),
         "sched" => Box::new(sched::SchedExec::default()),
+        "copyw" => Box::new(copyw::CopyExec::default()),
         _ => {
             eprintln!("unknown module {module}");
             std::process::exit(2);
